@@ -68,10 +68,16 @@ const (
 	pMatchUnmet
 	pMatchNear // matches only part of the text under full anchoring
 	pMatchInvalid
+	pExactLonger  // the text plus one byte
+	pExactEmpty   // Error("")
+	pPrefixLonger // the text plus one byte: longer than what it should prefix
+	pPrefixEmpty  // ErrorHasPrefix(""): met by every error
+	pSuffixLonger // one byte plus the text
+	pSuffixEmpty  // ErrorHasSuffix(""): met by every error
 	numPreds
 )
 
-var predNames = [...]string{"none", "AnyError", "Error(met)", "Error(unmet)", "Error(near-miss)", "HasPrefix(met)", "HasPrefix(unmet)", "HasPrefix(near-miss)", "HasSuffix(met)", "HasSuffix(unmet)", "HasSuffix(near-miss)", "Match(met)", "Match(unmet)", "Match(near-miss)", "Match(invalid)"}
+var predNames = [...]string{"none", "AnyError", "Error(met)", "Error(unmet)", "Error(near-miss)", "HasPrefix(met)", "HasPrefix(unmet)", "HasPrefix(near-miss)", "HasSuffix(met)", "HasSuffix(unmet)", "HasSuffix(near-miss)", "Match(met)", "Match(unmet)", "Match(near-miss)", "Match(invalid)", "Error(text+1)", "Error(empty)", "HasPrefix(text+1)", "HasPrefix(empty)", "HasSuffix(1+text)", "HasSuffix(empty)"}
 
 // caseSpec scripts one case: what its collaborators will do.
 type caseSpec struct {
@@ -81,10 +87,15 @@ type caseSpec struct {
 	after      int
 	pred       int
 	payload    string
+	nilValue   bool // unmarshal direction, pointer-typed T: the case lists a nil pointer as its value
 }
 
 func (c caseSpec) sig() string {
-	return fmt.Sprintf("constraint=%d,beh=%s,before=%s,after=%s,pred=%s", c.constraint, behNames[c.beh], hookNames[c.before], hookNames[c.after], predNames[c.pred])
+	nv := ""
+	if c.nilValue {
+		nv = ",value=nil"
+	}
+	return fmt.Sprintf("constraint=%d,beh=%s,before=%s,after=%s,pred=%s%s", c.constraint, behNames[c.beh], hookNames[c.before], hookNames[c.after], predNames[c.pred], nv)
 }
 
 // errHead is the beginning of the error text the helper will see for this case, "" if the
